@@ -138,8 +138,85 @@ let cmd_parse () =
     let inp = bytes_of_string (unhex line) in
     print_endline (show_res (M.parse inp)))
 
+(* ---- client: "R<reads>|W<writes>|L<flushes>|O<ops>" -> observations ---- *)
+let split_nonempty c s = if s = "" then [] else String.split_on_char c s
+
+let show_pout (o : M.pout) : string =
+  match o with
+  | M.PNone -> "N"
+  | M.PPending -> "P"
+  | M.PPanic -> "PANIC"
+  | M.PItem it -> (match it with
+    | M.IFrame (raw, v) -> let b = Buffer.create 256 in
+      Buffer.add_string b "F:"; Buffer.add_string b (hex (string_of_bytes raw)); Buffer.add_char b ':'; show_val b v; Buffer.contents b
+    | M.IErrDecode -> "E:decode" | M.IErrRemaining -> "E:remaining" | M.IErrIo -> "E:io"
+    | M.IErrWrite -> "E:write" | M.IErrEnded -> "E:ended")
+
+let cmd_client () =
+  iter_lines (fun line ->
+    match String.split_on_char '|' line with
+    | [r; w; l; o] ->
+      let rd = List.map (fun e -> match e.[0] with
+        | 'p' -> M.RNotReady | 'e' -> M.REof | 'x' -> M.RIoErr
+        | 'c' -> M.RChunk (bytes_of_string (unhex (String.sub e 1 (String.length e - 1))))
+        | _ -> failwith "rd") (split_nonempty ',' (String.sub r 1 (String.length r - 1))) in
+      let wr = List.map (fun e -> match e.[0] with
+        | 'p' -> M.WNotReady | 'z' -> M.WZero | 'x' -> M.WIoErr
+        | 'a' -> M.WAccept (n_of_int (int_of_string (String.sub e 1 (String.length e - 1))))
+        | _ -> failwith "wr") (split_nonempty ',' (String.sub w 1 (String.length w - 1))) in
+      let fl = List.map (fun e -> match e.[0] with
+        | 'o' -> M.FOk | 'p' -> M.FNotReady | 'x' -> M.FIoErr | _ -> failwith "fl")
+        (split_nonempty ',' (String.sub l 1 (String.length l - 1))) in
+      let ops = split_nonempty ',' (String.sub o 1 (String.length o - 1)) in
+      let c = ref (M.client_init { M.io_rd = rd; M.io_wr = wr; M.io_fl = fl; M.io_wire = [] }) in
+      let per_cmd = List.map (fun op ->
+        match String.split_on_char ':' op with
+        | [args; polls] ->
+          (match M.call !c (bytes_of_string (unhex args)) with
+           | None -> "OVERFLOW"
+           | Some (c1, s0) ->
+             c := c1;
+             let s = ref s0 in
+             let items = ref [] in
+             let fin = ref false in
+             for _ = 1 to int_of_string polls do
+               if not !fin then begin
+                 let ((c2, s2), out) = M.stream_poll !c !s in
+                 c := c2; s := s2;
+                 items := show_pout out :: !items;
+                 if out = M.PNone then fin := true
+               end
+             done;
+             String.concat "," (List.rev !items))
+        | _ -> "BADOP") ops in
+      Printf.printf "%s;wire=%s\n" (String.concat ";" per_cmd) (hex (string_of_bytes (!c).M.c_io.M.io_wire))
+    | _ -> print_endline "BADCASE")
+
+(* ---- framed: "R<reads>|K<polls>" -> per-poll outputs of the framed connection ---- *)
+let parse_reads (r : string) : M.rd_ev list =
+  List.map (fun e -> match e.[0] with
+    | 'p' -> M.RNotReady | 'e' -> M.REof | 'x' -> M.RIoErr
+    | 'c' -> M.RChunk (bytes_of_string (unhex (String.sub e 1 (String.length e - 1))))
+    | _ -> failwith "rd") (split_nonempty ',' (String.sub r 1 (String.length r - 1)))
+
+let cmd_framed () =
+  iter_lines (fun line ->
+    match String.split_on_char '|' line with
+    | [r; k] ->
+      let rd = ref (parse_reads r) in
+      let st = ref M.rf_init in
+      let outs = ref [] in
+      for _ = 1 to int_of_string (String.sub k 1 (String.length k - 1)) do
+        let ((st', o), rd') = M.fr_poll !st !rd in
+        st := st'; rd := rd'; outs := show_pout o :: !outs
+      done;
+      print_endline (String.concat "," (List.rev !outs))
+    | _ -> print_endline "BADCASE")
+
 let () =
   match Sys.argv.(1) with
+  | "framed" -> cmd_framed ()
+  | "client" -> cmd_client ()
   | "parse" -> cmd_parse ()
   | "builder" -> cmd_builder ()
   | "bodystruct" -> cmd_bodystruct ()
